@@ -14,6 +14,7 @@ import (
 	"testing"
 
 	"github.com/WICG/webpackage/go/bundle"
+	"github.com/WICG/webpackage/go/verifh/gen"
 	"github.com/WICG/webpackage/go/verifh/ref/refbundle"
 	"github.com/WICG/webpackage/go/verifh/vh"
 	"pgregory.net/rapid"
@@ -132,7 +133,7 @@ func safeRead(in []byte) (res readResult) {
 			res.panic = fmt.Sprintf("%v\n%s", e, firstLines(string(debug.Stack()), 30))
 		}
 	}()
-	b, err := bundle.Read(bytes.NewReader(in))
+	b, err := bundle.Read(gen.Source(in, gen.SourceModeOf(in)))
 	return readResult{b: b, err: err}
 }
 
